@@ -45,3 +45,54 @@ prop('C19',
      'walks with bounce and invalid jumps run under ASan+UBSan. Held on the executions observed, not a proof.',
      level_note='Trusts the 20-line model in harness/rotenc.c as the reading of the statement; snapshots decoder '
      'state by opaque memcpy.')
+
+import gen
+
+# ----------------------------------------------------------------------- C16
+prop('C16',
+     'exh: every 32-bit argument of bitcnt/clz/ctz (and every non-zero one of ilog2) against compiler builtins, '
+     'arguments distinct by construction (non-trivial = not among the 64 single-bit/zero-ish arguments, counted); '
+     'macros: all one- and two-bit patterns, all contiguous masks, random values, evaluated at run time on a '
+     'volatile object and at compile time as static initialisers (distinct = distinct 64-bit arguments, hashed).',
+     [Stage('exh', ['harness/bitops.c'], [R + 'bitops.c'], preset='O2', nproc=16, pregen=gen.constexpr_table,
+            args={'quick': ['--extra', 'exh'], 'thorough': ['--extra', 'exh']},
+            needs_min={'arguments_checked_per_function': 1 << 32}),
+      Stage('asan', ['harness/bitops.c'], [R + 'bitops.c'], preset='asan', nproc=4, pregen=gen.constexpr_table,
+            args={'quick': ['--extra', 'asan'], 'thorough': ['--extra', 'asan']},
+            needs_min={'macro_compile_time_constants': 4000, 'macro_rt_contiguous_masks': 2080}),
+      Stage('asan-clang', ['harness/bitops.c'], [R + 'bitops.c'], preset='asan', cc='clang', nproc=2,
+            pregen=gen.constexpr_table, tiers=('thorough',),
+            args={'thorough': ['--extra', 'asan']})],
+     assumptions=['__builtin_popcount/clz/ctz are the mathematical definitions (cross-checked against naive bit '
+                  'loops on 2^20 values each run)'],
+     exhaustive_claim=False,
+     exhaustive_note='the exh stage covers all 2^32 arguments of bitcnt, clz, ctz and all non-zero arguments of '
+                     'ilog2; the 64-bit macro domain is sampled',
+     engine='E1', technique='runtime monitoring: exhaustive differential execution against compiler builtins; '
+     'ASan+UBSan sample; compile-time evaluation forced through static initialisers',
+     level_text='Exploration, exhaustive for the four functions: all 2^32 arguments are executed on the real code at '
+     '-O2 and compared with the builtin definitions; the macros are evaluated on all one/two-bit patterns, all '
+     'contiguous masks and random constants both at run time and as static initialisers.',
+     level_note='Trusts the compiler builtins as the definition (self-checked against naive loops). The macro domain '
+     '(2^64) is sampled, not enumerated.')
+
+# ----------------------------------------------------------------------- C17
+prop('C17',
+     'exh: every state 1..2^31-2 once (distinct by construction); non-trivial = states in Carta\'s carry case '
+     '(high and low parts of 16807*s fold to >= 2^31-1), counted exactly; traj: the orbit of seed 1.',
+     [Stage('exh', ['harness/rand31.c'], [R + 'rand.c'], preset='O2', nproc=16,
+            args={'quick': ['--extra', 'exh'], 'thorough': ['--extra', 'exh']},
+            needs_min={'states_checked': 2147483646}),
+      Stage('asan-sample', ['harness/rand31.c'], [R + 'rand.c'], preset='asan', nproc=8,
+            args={'quick': ['--extra', 'sample'], 'thorough': ['--extra', 'sample']}),
+      Stage('traj', ['harness/rand31.c'], [R + 'rand.c'], preset='O2', nproc=1,
+            args={'quick': ['--extra', 'traj'], 'thorough': ['--extra', 'traj']},
+            needs_min={'trajectory_steps': 1 << 28})],
+     assumptions=['64-bit arithmetic (16807*s) % (2^31-1) is the definition'],
+     exhaustive_note='exh stage covers all 2^31-2 valid states; thorough traj stage walks the whole orbit of 1',
+     engine='E1', technique='runtime monitoring: exhaustive differential execution against 64-bit reference '
+     'arithmetic; UBSan sample; orbit walk',
+     level_text='Exploration, exhaustive over the state space: every one of the 2^31-2 states is fed to the real '
+     'rand31_r and the successor, the stored state and the range are compared with 64-bit arithmetic; the thorough '
+     'tier additionally walks the complete orbit of seed 1 and observes the period 2^31-2 directly.',
+     level_note='Trusts 64-bit modular arithmetic as the reference. Quick tier observes the first 2^28 orbit steps only.')
